@@ -443,10 +443,32 @@ class ExprMixin:
             elif ic is not None:
                 real = i + n
                 self.may_raise(p, real < 0, "IndexError", ln)
+            elif p.spec:
+                real = i          # specification indexing is mathematical (no negative-index wrap-around)
             else:
-                real = z3.If(i < 0, i + n, i)
+                if self.implied(p, i >= 0):
+                    real = i
+                elif self.implied(p, i < 0):
+                    real = i + n
+                else:
+                    real = z3.If(i < 0, i + n, i)
                 self.may_raise(p, z3.Or(real < 0, real >= n), "IndexError", ln)
-            return VInt(base.t[real])
+            elem = base.t[real]
+            if p.spec and z3.is_app_of(base.t, z3.Z3_OP_SEQ_EXTRACT):
+                inner, off = base.t.arg(0), base.t.arg(1)
+                p.pc.append(z3.Implies(z3.And(real >= 0, real < n, off >= 0), elem == inner[z3.simplify(off + real)]))
+            if p.spec and any(base.t.eq(bv) for bv in self.byte_vars):
+                # a declared octet-string variable: instantiate its element range at this index
+                p.pc.append(z3.Implies(z3.And(real >= 0, real < n), z3.And(elem >= 0, elem <= 255)))
+            if not p.spec:
+                # values that flow through code are genuine octet strings: instantiate the element range on use, and
+                # see through slices (nth of an extract is nth of the underlying sequence)
+                p.pc.append(z3.And(elem >= 0, elem <= 255))
+                if z3.is_app_of(base.t, z3.Z3_OP_SEQ_EXTRACT):
+                    inner, off = base.t.arg(0), base.t.arg(1)
+                    p.pc.append(elem == inner[z3.simplify(off + real)])
+                    p.pc.append(z3.And(inner[z3.simplify(off + real)] >= 0, inner[z3.simplify(off + real)] <= 255))
+            return VInt(elem)
         if isinstance(base, VList) and base.t is not None:
             i = self.as_int(idx)
             n = z3.Length(base.t)
@@ -472,10 +494,9 @@ class ExprMixin:
         if isinstance(base, VBytes) or (isinstance(base, VList) and base.t is not None):
             t = base.t
             n = z3.Length(t)
-            lo = self.clamp(self.as_int(self.ev(sl.lower, p, module)), n) if sl.lower is not None else z3.IntVal(0)
-            hi = self.clamp(self.as_int(self.ev(sl.upper, p, module)), n) if sl.upper is not None else n
-            ln_ = z3.If(hi - lo > 0, hi - lo, z3.IntVal(0))
-            r = z3.Extract(t, lo, z3.simplify(ln_))
+            lo = self.clamp_ctx(self.as_int(self.ev(sl.lower, p, module)), n, p) if sl.lower is not None else z3.IntVal(0)
+            hi = self.clamp_ctx(self.as_int(self.ev(sl.upper, p, module)), n, p) if sl.upper is not None else n
+            r = self.mk_extract(t, lo, hi, p)
             if isinstance(base, VBytes):
                 return VBytes(r, base.kind)
             return VList(t=r, elem=base.elem)
@@ -492,6 +513,33 @@ class ExprMixin:
                 return VStr(lit=base.lit[lo:hi])
             return VStr(fresh(Str, "slice"))
         raise Unsupported(f"slice of {base!r}")
+
+    def implied(self, p, cond):
+        """True when the facts collected on the path so far imply cond (used only to pick simpler, equivalent terms)."""
+        c = z3.simplify(cond)
+        if z3.is_true(c):
+            return True
+        if z3.is_false(c):
+            return False
+        return not self.feasible(p.pc, z3.Not(cond))
+
+    def clamp_ctx(self, i, n, p):
+        if self.implied(p, z3.And(i >= 0, i <= n)):
+            return i
+        return self.clamp(i, n)
+
+    def mk_extract(self, t, lo, hi, p):
+        """t[lo:hi] for already clamped lo, hi (0 <= lo, hi <= len(t)).  A slice of an exact slice is flattened to a
+        slice of the underlying sequence, so that equal slices are syntactically close."""
+        nonneg = self.implied(p, hi - lo >= 0)
+        d = z3.simplify(hi - lo)
+        if not nonneg:
+            d = z3.If(hi - lo > 0, hi - lo, z3.IntVal(0))
+        if nonneg and z3.is_app_of(t, z3.Z3_OP_SEQ_EXTRACT):
+            s0, o0, l0 = t.arg(0), t.arg(1), t.arg(2)
+            if self.implied(p, z3.And(o0 >= 0, l0 >= 0, o0 + l0 <= z3.Length(s0), hi <= l0, lo >= 0)):
+                return z3.Extract(s0, z3.simplify(o0 + lo), d)
+        return z3.Extract(t, z3.simplify(lo), d)
 
     @staticmethod
     def clamp(i, n):
